@@ -56,7 +56,10 @@ def r17_1(run, model):
         for p in params:
             used = p in body_ids
             run.ob("R17.1", f"{name}|uses parameter {p}", used, site(NAMES, f.node["sp"]), f"`{p}` {'is' if used else 'is NOT'} part of the name")
-        sl = sorted({S.callee_name(c) for c in S.calls(f.body) if S.callee_name(c) in SLICERS})
+        # the constructor and the same-file helpers it hands a parameter to (`trait_key(trait_name)`): a helper that cuts the text is a cut;
+        # ty_compact is the type renderer (its own clause: R19.4 / R07.3)
+        sl = sorted({f"{g_.name}: {S.callee_name(c)}" if g_ is not f else S.callee_name(c) for g_ in model.scope_fns(f, depth=2) if g_.body is not None and g_.name != "ty_compact"
+                     for c in S.calls(g_.body) if S.callee_name(c) in SLICERS})
         run.ob("R17.1", f"{name}|parameters used whole", not sl, site(NAMES, f.node["sp"]), f"string-slicing calls in the constructor: {sl or 'none'}",
                witness="Main's `Show` and `Fmt::Show` implemented for int32 get the same function name: one implementation silently replaces the other")
         for m_ in fm:
@@ -553,6 +556,10 @@ def r17_21(run, model):
 
 
 def run(run, model):
+    # the dyn call form unboxes at the impl's type: a numeric literal stored in the `any` slot without its type makes `d.m()` panic where
+    # `T::m(1.5f32)` works (shared with C10 R10.8)
+    from rules import c10 as _c10d
+    run.try_rule(_c10d.r10_8, model)
     run.try_rule(r17_1, model)
     run.try_rule(r17_2, model)
     run.try_rule(r17_3, model)
